@@ -231,7 +231,11 @@ def build_frame(spec):
     arrays = []
     for c in spec['cols']:
         vals = [untok(t) for t in c['vals']]
-        if c['dt'] == 'str':
+        if c['dt'] == 'obj':
+            a = np.empty(len(vals), dtype=object)
+            for i, v in enumerate(vals):
+                a[i] = v
+        elif c['dt'] == 'str':
             a = np.array(vals, dtype=str) if vals else np.array([], dtype='<U1')
         else:
             a = np.array(vals, dtype=NP_DT[c['dt']])
@@ -492,6 +496,18 @@ def cases(ctx):
         yield {'k': 'frame', 'spec': spec, 'cfg': cfg}
         if i % 3 == 0:
             yield {'k': 'struct', 'spec': spec, 'route': rng.choice(STRUCT_ROUTES)}
+        if i % 6 == 1 and spec['rows'] >= 2:
+            # one column of mixed Python values (object dtype): texts that LOOK like numbers next to numbers, a missing float or
+            # None at the head - what a records / pairs export hands to the per-column array builder of the import
+            import copy
+            spec2 = copy.deepcopy(spec)
+            j = rng.randrange(len(spec2['cols']))
+            # floats, texts and None only: Booleans / ints next to floats are merged by NumPy's own rules (finding F25 of C07)
+            pool = ['s:"12"', 's:"-3"', 's:" 7"', 's:"1e3"', 's:"x"', 's:""', 's:"nan"', 'f:2.5', 'N', 'nan', 's:"True"']
+            head = rng.choice(['nan', 'nan', 'f:1.5', 'N', 's:"12"'])
+            spec2['cols'][j] = {'dt': 'obj', 'vals': [head] + [rng.choice(pool[:4] if rng.random() < 0.5 else pool) for _ in range(spec2['rows'] - 1)]}
+            spec2['consolidate'] = False
+            yield {'k': 'struct', 'spec': spec2, 'route': rng.choice(STRUCT_ROUTES)}
     # boundary shapes and special configurations
     for i in range(120 if quick else 600):
         specials = specials_for(rng)
@@ -1014,6 +1030,8 @@ def eval_struct(ctx, c):
             fails.append(Failure('oracle', f'{desc}: {k} {b[k]} != {a[k]}', c, detail={'field': k, 'route': route}))
             return fails
     for j, (gc, ec) in enumerate(zip(b['cols'], a['cols'])):
+        if spec['cols'][j]['dt'] == 'obj' and gc['vals'] == ec['vals']:
+            continue    # a column of Python objects may come back typed (all texts -> str): every VALUE must be what it was
         if gc != ec:
             fails.append(Failure('oracle', f'{desc}: column {j} {gc} != {ec}', c,
                                  detail={'field': 'cols', 'route': route, 'col': j, 'got_kind': gc['kind'], 'exp_kind': ec['kind']}))
